@@ -123,8 +123,17 @@ class Monitor:
             for d in ranges:
                 rnode = compiler.cell_map.get(d)
                 cnode = compiler.cell_map.get(c.address)
-                if (c in AddressRange(d) and rnode is not None and cnode is not None and
-                        g.has_edge(rnode, fcell) and g.has_edge(cnode, rnode)):
+                if rnode is None or cnode is None or not g.has_edge(rnode, fcell):
+                    continue
+                if history._unbounded(d):
+                    # written A:B / 2:2: the cell standing in for it hangs on the bounded
+                    # range, which hangs on the cells
+                    inside = c.address in run.st.range_members(d)
+                    wired = nx.has_path(g, cnode, rnode)
+                else:
+                    inside = c in AddressRange(d)
+                    wired = g.has_edge(cnode, rnode)
+                if inside and wired:
                     ok = True
                     break
             if not ok:
